@@ -203,6 +203,18 @@ Definition C13_is_point_int_full_statement : Prop :=
   forall s : list (itv xq), NF xq_cmp s -> Forall WFx s ->
   (xs_is_point_int s = true <-> exists z, int_mem_set z s /\ forall z', int_mem_set z' s -> z' = z).
 
+(* the integer queries see an end point only through (is_infinity, is_integer, floor, ceiling): on rational end
+   points they are the [epi] programs that the model driver also runs on ALGEBRAIC end points, with that view
+   computed exactly by the reference RefAlg (rn_is_integer / rn_floor / rn_ceiling) *)
+Theorem C13_int_queries_by_floor_ceiling : forall s : list (itv xq),
+  (forall X, itv_contains_int X = ei_contains_int (epi_itv X)) /\
+  (forall X, itv_count_int X = ei_count_int (epi_itv X)) /\
+  xs_contains_int s = es_contains_int (map epi_itv s) /\
+  xs_count_int s = es_count_int (map epi_itv s) /\
+  xs_is_point_int s = es_is_point_int (map epi_itv s).
+Proof. exact (fun s => conj itv_contains_int_epi (conj itv_count_int_epi (xs_int_queries_epi s))). Qed.
+Print Assumptions C13_int_queries_by_floor_ceiling.
+
 (* lp_feasibility_set_pick_value / lp_interval_pick_value are not modelled (any member will do): the
    implementation's value is CHECKED by xs_pick_ok, and the checker accepts exactly the members of the set that
    are integers whenever the set contains an integer *)
